@@ -73,7 +73,7 @@ for n in (0, 1):
 
 # 7. ghost-free bounded stand-in (no overlay => cannot drift): the real file as it is, length n, all data
 PLAIN_Q = {4, 7}
-for n in [2, 3, 4, 5, 6, 7, 8]:
+for n in [2, 3, 4, 5, 6, 7]:   # n = 8 (one slicing-by-8 block: the 2^96 identity without the lemma chain) does not finish in 900 s
     JOBS.append(dict(name='c14_crc32_plain_len%02d' % n, prop='C14', overlays=[], harness='harness/C14/crc32_plain.c',
                      includes=['.'], defines=['CQV_MEMCPY_EXACT=16', 'CQV_LEN=%d' % n], entry='h_plain', loop_contracts=False,
                      unwind=257, level='bounded', bound='length == %d bytes (all data), start value 0' % n,
